@@ -209,22 +209,24 @@ def requestedAddr (reqBootp : List UInt8) : List UInt8 :=
   | some v => if v.length == 4 && v != [0, 0, 0, 0] then v else bytesAt reqBootp 12 4
   | none => bytesAt reqBootp 12 4
 
-/-- `reply-differs`: the slow path's reply to the same request vs. the transmitted fast-path reply.
-    Clauses (each the exact mechanism of a recorded finding):
-    * `D10`: the replies agree once every IPv4 address field of the fast-path reply is byte-reversed;
-    * `KF-fastpath-reqaddr`: userspace NAKs a REQUEST whose requested address (option 50, else ciaddr) is not the
-      client's lease, the fast path ACKs the cached address without looking at either field;
-    * `KF-opt53-fixed`: the program's fixed-offset scan for option 53 read another message type than a DHCP parser
-      reads from the same options (bytes `35 01 xx` inside an earlier option's value) AND the message type is the only
-      difference (or userspace NAKs / does not answer a message that is no DISCOVER / REQUEST);
-    * `KF-cid-foreign-mac`: the program answered from a circuit_id_subscribers entry whose lease belongs to another
-      MAC (it keys on option 82 whatever giaddr and chaddr are; userspace looks a client up by MAC first and by
-      circuit-id only for relayed requests of unknown MACs) AND the client address is the only difference (or
-      userspace NAKs the request);
-    * `KF-dns-more-than-two`: userspace's option 6 lists more than two servers, the fast path's the first two of
-      them, nothing else differs (after the D10 reversal);
-    * `KF-srvcfg-unset`: server_config.server_ip is 0 (never configured) and the only difference, after the D10
-      reversal, is the server identifier (the program falls back to the pool gateway). -/
+/-- `reply-differs`: the slow path's reply to the same request vs. the transmitted fast-path reply, field by field
+    (message type, yiaddr, options 54, 51, 1, 3, 6).  The attribution is COMPOSITIONAL: every differing field must be
+    explained by a recorded finding whose mechanism is confirmed on this very run; each finding explains only its own
+    fields; one verdict is emitted per finding involved; a single unexplained field makes the whole verdict `none`.
+    * `D10` explains an ADDRESS field (yiaddr, 54, 3, 6) whose fast-path bytes are the slow path's with every four
+      bytes reversed;
+    * `KF-opt53-fixed` (the fixed-offset scan read another message type than a DHCP parser reads from the same
+      options) explains the message type;
+    * `KF-fastpath-reqaddr` (userspace NAKs a REQUEST whose requested address — option 50, else ciaddr — is not the
+      cached address, the fast path ACKs) explains the message type;
+    * `KF-cid-foreign-mac` (the answer came from a circuit_id_subscribers entry that no lease of the requesting MAC
+      with that key and address owns) explains yiaddr, and the message type when userspace NAKs;
+    * `KF-dns-more-than-two` (userspace lists more than two servers, the fast path exactly the first two of them,
+      after the D10 reversal) explains option 6;
+    * `KF-srvcfg-unset` (server_config.server_ip is 0 in the cache the program ran on and the fast path's option 54
+      equals its own option 3, the gateway) explains option 54.
+    A DHCPNAK carries only the message type and the server identifier: the other fields are then not compared (they
+    follow from the message type).  Lease time, subnet mask and router are explained by nothing but D10 (router). -/
 def compareReplies (reqBootp fb : List UInt8) (cachedIp : Option UInt32) (cfgZero foreignCid misread : Bool)
     (slow : Option (List UInt8)) : List (String × String × String) :=
   let trueType := trueMsgType (reqBootp.drop 240)
@@ -232,44 +234,41 @@ def compareReplies (reqBootp fb : List UInt8) (cachedIp : Option UInt32) (cfgZer
   | some sb =>
     let fv := viewOf fb
     let sv := viewOf sb
-    -- with server_config never written (KF-srvcfg-unset: `server_ip` is 0 in the cache the program ran on) the server
-    -- identifier is the pool gateway: that difference is explained, whatever else differs is judged without it
-    -- (the mechanism, checked: the fast path's option 54 equals its own option 3, the gateway)
-    let cfgHit := cfgZero && fv.serverId != sv.rev.serverId && fv.serverId == fv.router
-    let fv := if cfgHit then { fv with serverId := sv.rev.serverId } else fv
     let svr := sv.rev
-    -- a DHCPNAK carries the server identifier only: nothing else can be compared
-    let nakOk := sv.msgType == some [6] && fv.serverId == svr.serverId
-    if fv == sv then []
-    else if fv == svr then
-      if cfgHit then [("reply-differs", "KF-srvcfg-unset", "server-id-is-the-gateway")]
-      else [("reply-differs", "D10", "addresses-byte-reversed")]
-    -- KF-opt53-fixed explains a different message type and nothing else
-    else if misread && (nakOk || { fv with msgType := none } == { svr with msgType := none }) then
-      [("reply-differs", "KF-opt53-fixed", "message-type-read-at-a-fixed-offset")]
-    -- KF-cid-foreign-mac explains another client's address (or a NAK where userspace refuses it) and nothing else
-    else if foreignCid && (nakOk || { fv with yiaddr := [] } == { svr with yiaddr := [] }) then
-      [("reply-differs", "KF-cid-foreign-mac", "answered-from-another-clients-circuit-id-entry")]
-    else if nakOk && fv.msgType == some [5] &&
-        cachedIp.map (fun ip => CacheEnc.ipWire ip) != some (requestedAddr reqBootp) then
-      [("reply-differs", "KF-fastpath-reqaddr", "ack-for-an-address-userspace-naks")]
-    -- KF-dns-more-than-two: the pool has more than two DNS servers, struct ip_pool holds two
-    else if sv.dns.length > 8 && fv.dns == svr.dns.take 8 && { fv with dns := [] } == { svr with dns := [] } then
-      [("reply-differs", "KF-dns-more-than-two", "option-6-carries-the-first-two-servers-only")]
+    let nak := sv.msgType == some [6]
+    let reqaddr := nak && fv.msgType == some [5] &&
+      cachedIp.map (fun ip => CacheEnc.ipWire ip) != some (requestedAddr reqBootp)
+    let cfgHit := cfgZero && fv.serverId == fv.router
+    let dnsHit := sv.dns.length > 8 && fv.dns == svr.dns.take 8
+    -- per field: does it differ, and which findings explain the difference
+    let field (name : String) (differs d10 : Bool) (expl : List (Bool × String)) : Option (String × List String) :=
+      if !differs then none
+      else if d10 then some (name, ["D10"])
+      else some (name, (expl.filter (·.1)).map (·.2))
+    let fields : List (Option (String × List String)) :=
+      [ field "message-type" (fv.msgType != sv.msgType) false
+          [(misread, "KF-opt53-fixed"), (reqaddr, "KF-fastpath-reqaddr"), (foreignCid && nak, "KF-cid-foreign-mac")],
+        field "server-id" (fv.serverId != sv.serverId) (fv.serverId == svr.serverId) [(cfgHit, "KF-srvcfg-unset")] ] ++
+      (if nak then [] else
+      [ field "yiaddr" (fv.yiaddr != sv.yiaddr) (fv.yiaddr == svr.yiaddr) [(foreignCid, "KF-cid-foreign-mac")],
+        field "lease-time" (fv.leaseTime != sv.leaseTime) false [],
+        field "subnet-mask" (fv.mask != sv.mask) false [],
+        field "router" (fv.router != sv.router) (fv.router == svr.router) [],
+        field "dns" (fv.dns != sv.dns) (fv.dns == svr.dns) [(dnsHit, "KF-dns-more-than-two")] ])
+    let diffs := fields.filterMap id
+    if diffs.isEmpty then []
     else
-      let d := if fv.msgType != sv.msgType then "message-type"
-        else if fv.leaseTime != sv.leaseTime then "lease-time"
-        else if fv.mask != sv.mask then "subnet-mask"
-        else if fv.yiaddr != sv.yiaddr && fv.yiaddr != rev4 sv.yiaddr then "yiaddr"
-        else if fv.serverId != sv.serverId && fv.serverId != sv.serverId.map rev4 then "server-id"
-        else if fv.router != sv.router && fv.router != sv.router.map rev4 then "router"
-        else if fv.dns != sv.dns && fv.dns != rev4 sv.dns then "dns"
-        else "mixed-byte-order"
-      [("reply-differs", "none", d)]
+      match diffs.find? (fun d => d.2.isEmpty) with
+      | some (name, _) => [("reply-differs", "none", name)]
+      | none =>
+        -- every differing field is explained: one verdict per finding involved (the first explanation of each field)
+        let clauses := dedup (diffs.filterMap fun d => d.2.head?)
+        clauses.map fun c =>
+          ("reply-differs", c, "+".intercalate ((diffs.filter fun d => d.2.head? == some c).map (·.1)))
   | none =>
     -- userspace sends nothing: explained by KF-opt53-fixed only when the message really is no DISCOVER / REQUEST
     if misread && trueType != some 1 && trueType != some 3 then
-      [("reply-differs", "KF-opt53-fixed", "message-type-read-at-a-fixed-offset")]
+      [("reply-differs", "KF-opt53-fixed", "userspace-does-not-answer-this-message-type")]
     else [("reply-differs", "none", "slow-path-sends-nothing")]
 
 /-! ### the implementation's state, as observed -/
